@@ -196,16 +196,21 @@ class C20(core.Check):
         return {"prop": "C20", "seed": seed, "ops": ops}
 
     # ------------------------------------------------------------ CLI in-process
-    def run_cli(self, args):
+    def run_cli(self, args, cwd=None):
         out = io.StringIO()
         code = "returned"
+        prev = os.getcwd()
         with contextlib.redirect_stdout(out):
             try:
+                if cwd:
+                    os.chdir(cwd)  # (this run has its own process: nobody else sees the working directory)
                 self.cli.main.main(args=[str(a) for a in args], standalone_mode=False)
             except SystemExit as e:
                 code = e.code
             except Exception as e:  # noqa: BLE001  (click usage errors etc.)
                 return {"status": "exception:" + type(e).__name__, "stdout": out.getvalue()}
+            finally:
+                os.chdir(prev)
         res = {"status": exit_status(None if code == "returned" else code), "stdout": out.getvalue()}
         self._trace.append([args[0], res["status"], len(res["stdout"].splitlines())])
         return res
@@ -334,6 +339,9 @@ class C20(core.Check):
         if len(text) % 2:
             with open(p, "wb") as f:  # the target already exists and is LONGER than what will be written
                 f.write(b"# older, longer content\n" * 4000)
+        elif len(text) % 4 == 0 and len(os.path.basename(p)) < 200:
+            with open(p, "wb") as f:  # ... or holds the same text with the other line ends (saved on another platform)
+                f.write(text.replace("\r\n", "\n").replace("\n", "\r\n").encode("utf-8") if "\r\n" not in text else text.replace("\r\n", "\n").encode("utf-8"))
         sv = core.call(lambda: mf.save(dct, p, **kw))
         if sv[0] != "ok":
             return viol("save_raised_but_dumps_did_not", op, sv[1])
@@ -423,6 +431,10 @@ class C20(core.Check):
             pin = os.path.join(ld, "in.map")
         pout = pin if op.get("in_place") else os.path.join(d, "out.map" if len(text) % 5 else "o" * 251 + ".map")
         args = ["format", pin, pout]
+        cli_cwd = None
+        if not op.get("in_place") and len(text) % 3 == 0:
+            # OUT given as a bare file name, the command run from the folder it goes to
+            cli_cwd, args[2] = os.path.dirname(pout), os.path.basename(pout)
         skw = {}
         if op["indent"] is not None:
             args += ["--indent", op["indent"]]
@@ -457,7 +469,7 @@ class C20(core.Check):
                    "cr_variant": want0.replace(nlc, b"\r")}[op["existing_out"]]
             with open(pout, "wb") as f:
                 f.write(pre)
-        res = self.run_cli(args)
+        res = self.run_cli(args, cwd=cli_cwd)
         sig = {"in_place": "yes" if op.get("in_place") else "no", "existing_out": str(op.get("existing_out")), "symlinked_in": "yes" if op.get("symlink") else "no"}
         if ref[0] != "ok":
             if res["status"] == 0:
@@ -479,7 +491,7 @@ class C20(core.Check):
             with open(os.path.join(d, "inc.map"), "wb") as f:
                 f.write('LAYER\n  NAME "included, second edition"\n  TYPE LINE\nEND\n'.encode())
             ref = core.call(lambda: mf.save(mf.open(pin, **okw), pref, **skw))
-            res = self.run_cli(args)
+            res = self.run_cli(args, cwd=cli_cwd)
             if ref[0] != "ok" or res["status"] != 0:
                 return viol("format_after_include_edit_failed", op, {"api": ref[1], "cli": res}, **sig)
             with open(pout, "rb") as f:
@@ -514,7 +526,10 @@ class C20(core.Check):
             elif kind == "versioned":
                 # valid up to 7.6 only (STYLE ANTIALIAS, LAYER TRANSPARENCY): the message count depends on --version
                 data = (b'MAP\n  NAME "v"\n  LAYER\n    NAME "l"\n    TYPE POLYGON\n    CLASS\n      STYLE\n        ANTIALIAS TRUE\n'
-                        b'      END\n    END\n  END\nEND\n')
+                        b'      END\n    END\n  END\n'
+                        # and one object with several problems of its own (no TYPE; a keyword of other versions): several
+                        # messages carry the same position
+                        b'  LAYER\n    NAME "l2"\n    OPACITY 50\n    TRANSPARENCY 50\n  END\nEND\n')
             elif kind == "unparseable":
                 data = b'MAP\n  NAME "x"\n  LAYER\n END END END\n'
             elif kind == "selfinclude":
